@@ -437,12 +437,62 @@ class ExprMixin:
             return E(f.cname)
         if k == 'VarDecl':
             return self.global_var(n, rd)
+        if k == 'VarTemplateSpecializationDecl':
+            return self.var_template_constant(n, rd)
         if k == 'BindingDecl':
             self.err(n, 'structured binding')
         if k == 'ParmVarDecl':
             # parameter of an enclosing function referenced from a default argument etc.
             self.err(n, 'reference to parameter %s of another function' % rd.get('name'))
         self.err(n, 'unsupported DeclRefExpr to %s' % k)
+
+    def var_template_constant(self, n, rd):
+        """a constant use of a variable template specialisation (std::tuple_size_v<T>, ...): clang's JSON names the variable but not its
+        template arguments, so the expression is read back from the source, the enclosing function template's parameters are replaced
+        by this instantiation's arguments, and the real compiler evaluates it (constant probe)"""
+        from .astload import source_text, spellloc
+        L = self.L
+        if n.get('nonOdrUseReason') != 'constant':
+            self.err(n, 'variable template specialisation %s used as an object' % rd.get('name'))
+        rg = n.get('range', {})
+        f, _, b = spellloc(rg.get('begin')); f2, _, e = spellloc(rg.get('end'))
+        if not f or b is None or e is None or f != f2:
+            self.err(n, 'variable template reference without a source range')
+        raw = source_text(f, b, e + 256).decode(errors='replace')
+        # the range ends at the start of the last token: extend to the matching '>' of the template-id
+        pos = e - b
+        depth = 0; end = None
+        for i, ch in enumerate(raw):
+            if ch == '<': depth += 1
+            elif ch == '>':
+                depth -= 1
+                if depth == 0 and i >= pos: end = i + 1; break
+            elif ch in ';{}' : break
+        text = raw[:end] if end else raw[:pos + len(rd.get('name', ''))]
+        # template parameter -> argument map of the enclosing instantiation
+        fn = self.f.node
+        targs = L._print_targs([c for c in fn.get('inner', ()) if c.get('kind') == 'TemplateArgument' and not c.get('isPack')])
+        tpl = L.ix.parent.get(fn['id'])
+        names = []
+        if tpl is not None and tpl.get('kind') == 'FunctionTemplateDecl':
+            for c in tpl.get('inner', ()):
+                if c.get('kind') in ('TemplateTypeParmDecl', 'NonTypeTemplateParmDecl') and not c.get('isParameterPack'):
+                    names.append(c.get('name'))
+        for nm, arg in zip(names, targs):
+            if nm:
+                text = re.sub(r'(?<![A-Za-z_0-9:])%s(?![A-Za-z_0-9])' % re.escape(nm), arg, text)
+        if re.search(r'(?<![A-Za-z_0-9:])(%s)(?![A-Za-z_0-9])' % '|'.join(re.escape(x) for x in names if x), text) if names else False:
+            self.err(n, 'could not substitute template parameters in %r' % text)
+        cname = 'frgv_vt_' + re.sub(r'[^A-Za-z0-9]+', '_', text).strip('_')
+        if not hasattr(L, 'global_text'):
+            L.global_text = {}
+        if cname not in L.global_text:
+            L.probe_consts[cname] = text
+            t = L.ty(n['type'])
+            from .ctypes_ import cdecl
+            L.global_text[cname] = 'static const %s %s = @@CONST:%s@@;' % (cdecl(t).replace('const ', ''), cname, cname)
+            L.globals['vt_' + cname] = (cname, n)
+        return E(cname)
 
     def enum_constant(self, rd):
         L = self.L
